@@ -39,6 +39,12 @@ pub struct Key {
     /// through a recent reload are kept apart so that every action (and the sweep) is also executed
     /// on a book that has just been rebuilt from its snapshot.
     reload_age: u8,
+    /// suffix mode only: the classes (placement / cancel / modify / toggle / reload) of the last
+    /// `suffix_k` operations of the representative history. A correct book's future depends on the
+    /// live book alone; state a defective one carries from one operation to the next (memos, lazily
+    /// refreshed caches) depends on how the book was entered, so states entered differently are
+    /// kept apart and each is expanded.
+    suffix: Vec<u8>,
 }
 
 #[derive(Clone, Debug)]
@@ -93,6 +99,8 @@ pub struct Absx {
     pub ties: bool,
     /// > 0: snapshot reload is an action, and states within this many operations after a reload are kept apart
     pub reload_depth: u8,
+    /// > 0: the classes of the last `suffix_k` operations are part of the key
+    pub suffix_k: usize,
     pub tie_transitions: Arc<AtomicU64>,
     /// enumerate the actions of every state in reverse order (second sweep: BFS then settles on
     /// other representative histories for most keys)
@@ -107,7 +115,17 @@ pub struct Absx {
     pub after_reload: Arc<AtomicU64>,
 }
 
-fn key_of(m: &RefModel, bad: bool, ties: Option<usize>, with_dead: bool, reload_age: u8) -> Key {
+fn act_class(a: &AbsAct) -> u8 {
+    match a {
+        AbsAct::Limit { .. } | AbsAct::Market { .. } | AbsAct::Create { .. } | AbsAct::PlaceUnplaced | AbsAct::PlaceDead { .. } => 0,
+        AbsAct::CancelRank { .. } | AbsAct::CancelDead { .. } => 1,
+        AbsAct::ModifyRank { .. } | AbsAct::ModifyDead { .. } => 2,
+        AbsAct::Enable | AbsAct::Disable => 3,
+        AbsAct::Reload => 4,
+    }
+}
+
+fn key_of(m: &RefModel, bad: bool, ties: Option<usize>, with_dead: bool, reload_age: u8, suffix: Vec<u8>) -> Key {
     let (trading, bids, asks) = m.live_key();
     let ages = match ties {
         None => vec![],
@@ -132,7 +150,7 @@ fn key_of(m: &RefModel, bad: bool, ties: Option<usize>, with_dead: bool, reload_
     } else {
         [false; 3]
     };
-    Key { trading, bids, asks, unplaced, dead, bad, ages, reload_age }
+    Key { trading, bids, asks, unplaced, dead, bad, ages, reload_age, suffix }
 }
 
 fn dead_rep(m: &RefModel, class: usize) -> Option<usize> {
@@ -174,7 +192,7 @@ impl Model for Absx {
 
     fn init_states(&self) -> Vec<AbsState> {
         let m = RefModel::new(self.profile.start_time, self.profile.tick, self.profile.start_trading);
-        vec![AbsState { key: key_of(&m, false, self.tie_cap(), self.with_redundant, 0), hist: vec![], model: m }]
+        vec![AbsState { key: key_of(&m, false, self.tie_cap(), self.with_redundant, 0, vec![]), hist: vec![], model: m }]
     }
 
     fn actions(&self, s: &AbsState, acts: &mut Vec<(u8, AbsAct)>) {
@@ -343,7 +361,14 @@ impl Absx {
         if reload_age > 0 {
             self.after_reload.fetch_add(1, Ordering::Relaxed);
         }
-        Some(AbsState { key: key_of(&m2, bad, self.tie_cap(), self.with_redundant, reload_age), hist, model: m2 })
+        let mut suffix = last.key.suffix.clone();
+        if self.suffix_k > 0 {
+            suffix.push(act_class(&a));
+            if suffix.len() > self.suffix_k {
+                suffix.remove(0);
+            }
+        }
+        Some(AbsState { key: key_of(&m2, bad, self.tie_cap(), self.with_redundant, reload_age, suffix), hist, model: m2 })
     }
 
     fn props(&self) -> Vec<Property<Self>> {
@@ -439,6 +464,8 @@ pub struct ClosureCfg {
     pub prices: usize,
     /// snapshot reload as an action; states up to this many operations after a reload are kept apart (0 = no reloads)
     pub reload_depth: u8,
+    /// classes of the last k operations in the key (0 = live book only)
+    pub suffix_k: usize,
 }
 
 /// Run the closure for a property's monitor set and fold the result into its outcome.
@@ -459,6 +486,7 @@ pub fn run_closure(out: &mut Outcome, monitors: &Monitors, c: &ClosureCfg, also_
         with_redundant: c.redundant,
         ties: c.ties,
         reload_depth: c.reload_depth,
+        suffix_k: c.suffix_k,
         after_reload: Arc::new(AtomicU64::new(0)),
         tie_transitions: Arc::new(AtomicU64::new(0)),
         reversed: false,
@@ -475,7 +503,7 @@ pub fn run_closure(out: &mut Outcome, monitors: &Monitors, c: &ClosureCfg, also_
     );
     let mut rec = json!({
         "engine": "absx (stateright BFS closure)", "label": c.label, "caps": {"max_resting_per_side": c.max_rest, "max_volume": c.max_vol, "max_unplaced": 1, "grid_prices": c.prices.max(2)},
-        "actions": {"modify": c.modify, "toggles": c.toggles, "create_place": c.create, "redundant_requests_on_dead_classes": c.redundant, "snapshot_reload": if c.reload_depth > 0 { format!("an action in every state; states within {} operations after a reload are kept apart and fully expanded", c.reload_depth) } else { "not among the actions".to_string() }, "clock_advance": if c.ties { "{0,+1} before every action; queue ages (clipped) are part of the key" } else { "+1 before every action" }},
+        "actions": {"modify": c.modify, "toggles": c.toggles, "create_place": c.create, "redundant_requests_on_dead_classes": c.redundant, "history_suffix_in_key": if c.suffix_k > 0 { format!("operation classes (placement/cancel/modify/toggle/reload) of the last {} operations", c.suffix_k) } else { "none (live book only)".to_string() }, "snapshot_reload": if c.reload_depth > 0 { format!("an action in every state; states within {} operations after a reload are kept apart and fully expanded", c.reload_depth) } else { "not among the actions".to_string() }, "clock_advance": if c.ties { "{0,+1} before every action; queue ages (clipped) are part of the key" } else { "+1 before every action" }},
         "unique_abstract_states": r.unique, "states_generated": r.generated, "transitions_executed_on_real_code": r.transitions,
         "cut_by_caps": r.cut, "max_depth": r.max_depth, "transitions_on_recently_reloaded_books": r.after_reload, "wall_s": (r.wall_s * 100.0).round() / 100.0,
         "violating_signatures": r.fails.keys().collect::<Vec<_>>(),
